@@ -14,7 +14,7 @@ import ast
 from typing import Any, Dict, List, Optional, Sequence, Set, Tuple
 
 from ..astq import ancestors, call_name, callee_shape, calls, dotted, guard_atoms, norm, walk_local
-from ..core import Ctx
+from ..core import Alias, Ctx
 from .c08 import handler_classes
 
 RT = ("asyncio", "trio")
@@ -109,14 +109,14 @@ PAIRS: List[Tuple[str, str, str, List[Step]]] = [
     ("lifespan", "Lifespan.wait_for_startup", "startup wait", [
         ("task started", P("self._started.wait", [], awaited=True), None, "D7: asyncio has no nursery.start(); _started mimics task_status.started()"),
         ("send startup", P("self.app_queue.put", ["{'type': 'lifespan.startup'}"], awaited=True, guard=("self.supported", True)), P("self.app_send_channel.send", ["{'type': 'lifespan.startup'}"], awaited=True, guard=("self.supported", True), in_try_with={"BrokenResourceError", "ClosedResourceError"}), ""),
-        ("bounded wait", P("asyncio.wait_for", ["self.startup.wait()", "timeout=self.config.startup_timeout"], awaited=True), P("trio.fail_after", ["self.config.startup_timeout"]), ""),
+        ("bounded wait", P("asyncio.wait_for", ["self.startup.wait()", "self.config.startup_timeout"], awaited=True), P("trio.fail_after", ["self.config.startup_timeout"]), ""),
         ("wait", P("self.startup.wait", []), P("self.startup.wait", [], awaited=True, under_with="trio.fail_after(self.config.startup_timeout)"), ""),
         ("timeout -> LifespanTimeoutError('startup')", P("LifespanTimeoutError", ["'startup'"], in_handler={"TimeoutError"}), P("LifespanTimeoutError", ["'startup'"], in_handler={"TooSlowError"}), ""),
     ]),
     ("lifespan", "Lifespan.wait_for_shutdown", "shutdown wait", [
         ("task started", P("self._started.wait", [], awaited=True), None, "D7"),
         ("send shutdown", P("self.app_queue.put", ["{'type': 'lifespan.shutdown'}"], awaited=True, guard=("self.supported", True)), P("self.app_send_channel.send", ["{'type': 'lifespan.shutdown'}"], awaited=True, guard=("self.supported", True), in_try_with={"BrokenResourceError", "ClosedResourceError"}), ""),
-        ("bounded wait", P("asyncio.wait_for", ["self.shutdown.wait()", "timeout=self.config.shutdown_timeout"], awaited=True), P("trio.fail_after", ["self.config.shutdown_timeout"]), ""),
+        ("bounded wait", P("asyncio.wait_for", ["self.shutdown.wait()", "self.config.shutdown_timeout"], awaited=True), P("trio.fail_after", ["self.config.shutdown_timeout"]), ""),
         ("wait", P("self.shutdown.wait", []), P("self.shutdown.wait", [], awaited=True, under_with="trio.fail_after(self.config.shutdown_timeout)"), ""),
         ("timeout -> LifespanTimeoutError('shutdown')", P("LifespanTimeoutError", ["'shutdown'"], in_handler={"TimeoutError"}), P("LifespanTimeoutError", ["'shutdown'"], in_handler={"TooSlowError"}), ""),
     ]),
@@ -313,6 +313,15 @@ def _same_stmt(a: ast.AST, b: Optional[ast.AST]) -> bool:
 
 
 def run(ctx: Ctx) -> None:
+    _run(ctx)
+    if isinstance(ctx, Alias):
+        return
+    from . import c05
+
+    c05.run(Alias(ctx, "C16.R4", "an application failure is contained the same way by both workers: logged, answered through send(None), never re-raised into the connection's task group - including failures wrapped in an exception group on trio (C05.R1)", only={"C05.R1"}))
+
+
+def _run(ctx: Ctx) -> None:
     repo = ctx.repo
     ctx.rule("C16.R1", "twin equality: functions that must be the same logic in both workers are equal after normalising runtime names (WorkerContext.__init__/mark_request, EventWrapper.wait/set/is_set, Lifespan.asgi_send)", floor=6)
     ctx.rule("C16.R2", "effect-skeleton agreement: both implementations of each paired method realise every step of one abstract skeleton, in order, with the same arguments, guards, handler classes and lock/timeout context, and contain no unclaimed effect", floor=60)
